@@ -62,7 +62,21 @@ func drawMatcher(x *simkit.Exec, tag string) *labels.Matcher {
 
 func drawTimeRange(x *simkit.Exec, ds *dataset, tag string) (int64, int64) {
 	total := int64(ds.NumSlots) * ds.SlotLen
-	switch x.Draw(tag+".trkind", 5) {
+	switch x.Draw(tag+".trkind", 6) {
+	case 5: // exactly on a block boundary (MinTime is inclusive, MaxTime exclusive)
+		b := ds.Blocks[x.Draw(tag+".trbblock", len(ds.Blocks))]
+		switch x.Draw(tag+".trbedge", 5) {
+		case 0:
+			return 0, b.MinT
+		case 1:
+			return b.MinT, b.MinT
+		case 2:
+			return b.MaxT - 1, total
+		case 3:
+			return b.MaxT, total
+		default:
+			return 0, b.MinT - 1
+		}
 	case 0:
 		return 0, total
 	case 1:
@@ -129,6 +143,45 @@ func drawQuery(x *simkit.Exec, ds *dataset, tag string) query {
 	q.MinT, q.MaxT = drawTimeRange(x, ds, tag)
 	q.RespBatch = []int64{0, 1, 3}[x.Draw(tag+".respbatch", 3)]
 	return q
+}
+
+// lazyFriendlyMatchers selects one series of one block with two posting groups: a selective one and a
+// broad one (what the cost model expands lazily when series are estimated to be small).
+func lazyFriendlyMatchers(x *simkit.Exec, ds *dataset, tag string) ([]*labels.Matcher, *blockSpec, *seriesSpec) {
+	b := ds.Blocks[x.Draw(tag+".block", len(ds.Blocks))]
+	if len(b.Series) == 0 {
+		return nil, nil, nil
+	}
+	sp := &b.Series[x.Draw(tag+".series", len(b.Series))]
+	var ls []labels.Label
+	sp.Lset.Range(func(lb labels.Label) { ls = append(ls, lb) })
+	a := ls[x.Draw(tag+".l1", len(ls))]
+	if x.Bool(tag+".shared", 2, 3) {
+		// prefer the label pair of this series that most series of the block share (several matches)
+		best := 0
+		for _, cand := range ls {
+			n := 0
+			for _, o := range b.Series {
+				if o.Lset.Get(cand.Name) == cand.Value {
+					n++
+				}
+			}
+			if n > best {
+				best, a = n, cand
+			}
+		}
+	}
+	bl := ls[x.Draw(tag+".l2", len(ls))]
+	ms := []*labels.Matcher{labels.MustNewMatcher(labels.MatchEqual, a.Name, a.Value)}
+	switch x.Draw(tag+".broad", 3) {
+	case 0:
+		ms = append(ms, labels.MustNewMatcher(labels.MatchRegexp, bl.Name, ".+"))
+	case 1:
+		ms = append(ms, labels.MustNewMatcher(labels.MatchNotEqual, bl.Name, ""))
+	default:
+		ms = append(ms, labels.MustNewMatcher(labels.MatchRegexp, bl.Name, regexp.QuoteMeta(bl.Value)+"|"+regexp.QuoteMeta(valuePool[x.Draw(tag+".alt", len(valuePool))])+"|"+regexp.QuoteMeta(valuePool[x.Draw(tag+".alt2", len(valuePool))])))
+	}
+	return ms, b, sp
 }
 
 // faultKinds for one client actor.
@@ -200,7 +253,7 @@ func runC10(x *simkit.Exec) {
 			default:
 				q0.Matchers = append(q0.Matchers, labels.MustNewMatcher(labels.MatchRegexp, bl.Name, regexp.QuoteMeta(bl.Value)+"|"+regexp.QuoteMeta(valuePool[x.Draw("ntw.alt", len(valuePool))])+"|"+regexp.QuoteMeta(valuePool[x.Draw("ntw.alt2", len(valuePool))])))
 			}
-			cfg.EstSeries = []uint64{8, 16, 100}[x.Draw("ntw.estseries", 3)]
+			cfg.EstSeries = []uint64{1, 8, 16}[x.Draw("ntw.estseries", 3)]
 			first, last := sp.Chunks[0].mint(), sp.Chunks[0].maxt()
 			for _, c := range sp.Chunks {
 				first, last = min(first, c.mint()), max(last, c.maxt())
